@@ -192,6 +192,9 @@ func tIte(c, a, b *Term) *Term {
 }
 
 func tEq(a, b *Term) *Term {
+	if a == b && a.S.K != sFP64 {
+		return mkBool(true)
+	}
 	if a.isConst() && b.isConst() {
 		if a.S.K == sFP64 {
 			return mkBool(a.F == b.F)
